@@ -78,6 +78,11 @@ impl<S> RequestHandler<S> for FilePathServer {
         let directory_path = self.directory_path.clone();
 
         Box::pin(async move {
+            // Avoid path traversal exploits
+            if request.uri.contains("..") {
+                return error_handler(StatusCode::NotFound);
+            }
+
             let file_path = request.uri.strip_prefix('/').unwrap_or(&request.uri);
             let path = format!("{}/{}", directory_path.to_str().unwrap(), file_path);
 
